@@ -423,6 +423,7 @@ class Runner:
 
         nsetups = [0]
         setup_key = {}
+        poked = [False]
 
         def perform(cl, given_script=None):
             """one lifecycle call on the real engine, logged after it returned; returns (python result, exception)"""
@@ -446,6 +447,7 @@ class Runner:
                     result = eng.setup(handed)
                     if poke:
                         _poke(handed)
+                        poked[0] = True
                     us_after = _script_projection(script)
                     setup_key[obj] = skey
                     own[obj] = (cid, h["kinds"][obj])
@@ -532,6 +534,11 @@ class Runner:
                 d = {"call": "EXC", "obj": obj, "in": call, "exc": repr(e)[:300]}
                 raised = e
             emit(d)
+            if poked[0]:
+                # the environment action of Engine.tla: logged after the set-up it followed, with what an observer reads now
+                poked[0] = False
+                if d.get("call") == "setup":
+                    emit(seen(obj, {"call": "caller_edits", "obj": obj}))
             return result, raised
 
         class Proxy:
